@@ -4,6 +4,7 @@ import json, random
 from ..common import Result, Violation, run_driver, canon_hash
 from ..langgen import LangGen, lang_payload
 from ..mhist import Impl, Gen, canon_obs, canon_out, coherent
+from .. import genexec
 
 ASSUMPTIONS = [
     'assets / associations passed to the API are objects created from the generated classes; removed objects are used as the invalid handles',
@@ -16,8 +17,9 @@ TRUSTED = ['Lean 4.33 kernel', 'axioms: propext, Classical.choice, Quot.sound',
 WEIGHTS = {'add_asset': 10, 'remove_asset': 4, 'add_association': 8, 'remove_association': 2, 'remove_asset_from_association': 3,
            'add_attacker': 2, 'remove_attacker': 1, 'add_entry_point': 3, 'remove_entry_point': 2, 'lookup': 2}
 
-def run_one(spec, ops, mo_steps, res: Result):
+def run_one(spec, ops, mo_steps, res: Result, go_steps=None):
     im = Impl(spec)
+    gen_on = go_steps is not None
     prev = canon_obs(im.obs())
     for i, op in enumerate(ops):
         st = im.step(op)
@@ -52,6 +54,18 @@ def run_one(spec, ops, mo_steps, res: Result):
                 return ('diverge', i, {'impl': a, 'model': b, 'impl_err': st['err'], 'model_err': mo['err']})
             if st['obs'] != mo['obs'] or st['err'] != mo['err']: res.drift += 1
             if st['err'] != mo['err']: res.bump(f'error-class-differs:{st["err"]}/{mo["err"]}')
+            if gen_on:
+                # third column: the generated code (Py/GenModel/*.lean) on the same history.  Compared like the hand model:
+                # raises / does not raise, query results, canonical state (the exception class is drift)
+                go = go_steps[i]
+                if go['err'] and go['err'].startswith('skip:'):
+                    gen_on = False; res.bump('generated_code_' + go['err'])      # outside what the prelude can express
+                else:
+                    res.bump('generated_code_steps_compared')
+                    g = [go['err'] is not None, canon_out(go['out']), canon_obs(go['obs'])]
+                    if a != g:
+                        return ('gen-diverge', i, {'impl': a, 'generated': g, 'hand_model': b, 'impl_err': st['err'], 'generated_err': go['err']})
+                    if st['err'] != go['err']: res.bump(f'generated-error-class-differs:{st["err"]}/{go["err"]}')
         prev = cur
     return None
 
@@ -156,9 +170,10 @@ def _run(seed, tier, lean) -> Result:
         spec = LangGen(r, knobs={'dup_assoc_names': 0.4}).gen()
         L = r.randint(5, 40) if i % 8 else r.randint(60, 120)
         cases.append((spec, Gen(r, spec, WEIGHTS).gen(L)))
-    model = None
+    model = gen = None
     if lean['build_ok']:
-        model = run_driver([{'op': 'model_hist', 'case': i, 'lang': lang_payload(s), 'ops': o} for i, (s, o) in enumerate(cases)])
+        model, gen = genexec.run_both([{'op': 'model_hist', 'case': i, 'lang': lang_payload(s), 'ops': o} for i, (s, o) in enumerate(cases)],
+                                      'gen_model_hist')
     for i, (spec, ops) in enumerate(cases):
         res.evaluations += 1
         mo = None
@@ -167,7 +182,13 @@ def _run(seed, tier, lean) -> Result:
                 res.violations.append(Violation(what='driver rejected a history: ' + model[i]['error'], fingerprint='C05:driver-error',
                                                 replay={'spec': spec, 'ops': ops}, no_failing_input=True)); continue
             mo = model[i]['model']
-        bad = run_one(spec, ops, mo, res)
+        go = None
+        if gen is not None and mo is not None:
+            if 'error' in gen[i]:
+                res.violations.append(genexec.driver_error('C05', gen[i]['error'], {'spec': spec, 'ops': ops}))
+            else:
+                go = gen[i]['model']
+        bad = run_one(spec, ops, mo, res, go)
         ks = [o['k'] for o in ops]
         if any(k.startswith('remove') for k in ks) and 'add_asset' in ks[max(0, min([j for j, k in enumerate(ks) if k.startswith('remove')] or [0])):]:
             res.nontrivial.add(canon_hash(ops))
@@ -180,6 +201,9 @@ def _run(seed, tier, lean) -> Result:
                 res.violations.append(Violation(what=f'{probs[0]} after {small[-1]["k"]} (history of {len(small)} operations)',
                                                 fingerprint='C05:' + probs[0].split(' field ')[0],
                                                 replay={'spec': spec, 'ops': small, 'problems': probs}))
+            elif kind == 'gen-diverge':
+                res.violations.append(genexec.divergence('C05', ops[at]['k'], f'after step {at} ({ops[at]["k"]}) of a history',
+                                                         {'spec': spec, 'ops': prefix, **info}))
             else:
                 res.violations.append(Violation(what=f'implementation and Lean model disagree after step {at} ({ops[at]["k"]}); the direct reference check passes',
                                                 fingerprint='C05:model-divergence:' + ops[at]['k'], replay={'spec': spec, 'ops': prefix, **info},
